@@ -23,8 +23,10 @@ CHECK = {'level': 'exploration',
                  'single-Update event-root pattern',
                  'query sets are non-empty; malformed proofs that crash Verify (over-long bitmap, S3) belong to C09 and count as "not verified"',
                  'subtree height 8 only (SetSubtreeHeight has no caller)'],
- 'quick': [{'pkg': 'c10', 'run': 'TestHistory|TestTwoRoutes|TestEventPattern|TestRegress', 'checks': 2500, 'timeout': 600},
+ 'quick': [{'pkg': 'c10', 'run': 'TestHistory|TestTwoRoutes|TestRegress', 'checks': 2000, 'timeout': 600},
+           {'pkg': 'c10', 'run': 'TestEventPattern', 'checks': 600, 'timeout': 600},
            {'pkg': 'c10', 'run': 'TestLargeMaps', 'checks': 6, 'timeout': 600}],
- 'thorough': [{'pkg': 'c10', 'run': 'TestHistory|TestTwoRoutes|TestEventPattern|TestRegress', 'checks': 30000, 'shards': 14, 'timeout': 2400},
+ 'thorough': [{'pkg': 'c10', 'run': 'TestHistory|TestTwoRoutes|TestRegress', 'checks': 20000, 'shards': 12, 'timeout': 2400},
+              {'pkg': 'c10', 'run': 'TestEventPattern', 'checks': 6000, 'shards': 2, 'timeout': 2400},
               {'pkg': 'c10', 'run': 'TestLargeMaps', 'checks': 32, 'shards': 2, 'timeout': 2400}],
  'replay': [{'pkg': 'c10', 'timeout': 600}]}
